@@ -70,6 +70,51 @@ def mk(M, csc, e=0):
                 np.array(M["indptr"], dtype=np.int32)), shape=(M["nmaj"], M["nmin"]))
 
 
+def lu_storage(case):
+    """Raw storage of the scipy product L @ U of two block-diagonal sparse matrices (unit
+    lower / unit upper triangular integer blocks): scipy leaves the indices of a product
+    unsorted."""
+    csc = case["csc"]
+    conv = (lambda X: sps.csc_matrix(X)) if csc else (lambda X: sps.csr_matrix(X))
+    L = conv(sps.block_diag([np.array(B, dtype=float) for B in case["LU"]["L"]]))
+    U = conv(sps.block_diag([np.array(B, dtype=float) for B in case["LU"]["U"]]))
+    P = L @ U
+    assert (sps.isspmatrix_csc(P) if csc else sps.isspmatrix_csr(P))
+    n = P.shape[0]
+    return {"nmaj": n, "nmin": n, "indptr": ints(P.indptr), "indices": ints(P.indices),
+            "data": ints(P.data)}
+
+
+def build_perm_input(case):
+    """The matrix handed to the permutation functions, in the sparse format of the case."""
+    e = case.get("e", 0)
+    D = np.array(case["D"], dtype=float) * 2.0 ** e
+    n = D.shape[0]
+    coo = sps.coo_matrix(sps.csr_matrix(D))
+    rows = list(coo.row) + [z[0] for z in case["stored_zeros"]]
+    cols = list(coo.col) + [z[1] for z in case["stored_zeros"]]
+    dat = list(coo.data) + [0.0] * len(case["stored_zeros"])
+    C = sps.coo_matrix((dat, (rows, cols)), shape=(n, n))  # explicit zeros are kept
+    fmt = case.get("fmt", "csr")
+    if fmt == "coo":
+        rs = np.random.RandomState(case.get("shuf", 0))
+        p = rs.permutation(len(dat))  # entries in arbitrary order
+        return sps.coo_matrix((np.array(dat)[p], (np.array(rows)[p], np.array(cols)[p])),
+                              shape=(n, n))
+    if fmt == "bsr":
+        return sps.csr_matrix(C).tobsr(blocksize=(1, 1))
+    A = sps.csc_matrix(C) if fmt.startswith("csc") else sps.csr_matrix(C)
+    if fmt.endswith("_unsorted"):
+        rs = np.random.RandomState(case.get("shuf", 0))
+        for i in range(n):
+            a, b = A.indptr[i], A.indptr[i + 1]
+            p = rs.permutation(b - a)
+            A.indices[a:b] = A.indices[a:b][p]
+            A.data[a:b] = A.data[a:b][p]
+        A.has_sorted_indices = False
+    return A
+
+
 def dense_of(M, csc):
     A = mk(M, csc).toarray()
     return A
@@ -188,8 +233,10 @@ class C37(Prop):
             "product of unit-triangular integer matrices with row permutation/sign flips "
             "(integer inverse); csr or csc; indices shuffled inside lines; explicitly stored "
             "zeros inside and outside the blocks; zero entries in the size array; blocks stored in full with shuffled indices "
-            "(diagonally dominant integer blocks); permuted "
-            "case: permuted diagonal matrices (singleton blocks, non-symmetric pattern), random row and column permutations of such a matrix, stored zeros, plus "
+            "(diagonally dominant integer blocks); the scipy product L @ U of block-diagonal "
+            "triangular matrices (unsorted indices as scipy leaves them); permuted "
+            "case (matrix handed over as csr, csc, coo with entries in arbitrary order, bsr, "
+            "csr/csc with shuffled indices; independent row and column permutations): permuted diagonal matrices (singleton blocks, non-symmetric pattern), random row and column permutations of such a matrix, stored zeros, plus "
             "matrices with non-square components (AssertionError branch). All values scaled by an exact power of two "
             "2^e (e = 0, |e| <= 8, or 40 <= |e| <= 60). Non-trivial = at "
             "least two blocks or a block of size >= 2.")
@@ -212,13 +259,37 @@ class C37(Prop):
                 c = self.g_permdiag(rng, big)
             elif k % 8 == 7:
                 c = self.g_full(rng, big)
+            elif k % 8 == 3:
+                c = self.g_lu(rng, big)
             elif k % 3 == 2:
                 c = self.g_perm(rng, big)
             else:
                 c = self.g_bd(rng, big)
             # exact power-of-two scaling of all values, over many orders of magnitude
             c["e"] = rng.choice([0, 0, rng.randint(-8, 8), rng.randint(40, 60), -rng.randint(40, 60)])
+            if c["kind"] == "perm":
+                # sparse format of the matrix handed to the permutation functions
+                c["fmt"] = rng.choice(["csr", "csc", "csc", "coo", "bsr", "csr_unsorted",
+                                       "csc_unsorted"])
+                c["shuf"] = rng.randrange(10**6)
             yield c
+
+    def g_lu(self, rng, big):
+        """Block-diagonal matrix given as the scipy product L @ U (unsorted indices as scipy
+        produces them), csr or csc."""
+        nb = rng.randint(1, 4)
+        sizes = [rng.randint(1, 4) for _ in range(nb)]
+        Ls, Us = [], []
+        for s_ in sizes:
+            L = np.eye(s_, dtype=int)
+            U = np.eye(s_, dtype=int)
+            for i in range(s_):
+                for j in range(i):
+                    L[i, j] = rng.choice([-2, -1, 1, 2, 0])
+                    U[j, i] = rng.choice([-2, -1, 1, 2, 0])
+            Ls.append(L.tolist())
+            Us.append(U.tolist())
+        return {"kind": "bd", "csc": rng.random() < 0.5, "LU": {"L": Ls, "U": Us}, "sz": sizes}
 
     def g_permdiag(self, rng, big):
         """Row/column permuted DIAGONAL matrix (all blocks singletons): the sparsity
@@ -313,6 +384,7 @@ class C37(Prop):
         if case["kind"] == "bd":
             csc = case["csc"]
             e = case.get("e", 0)
+            M = case["M"] if "M" in case else lu_storage(case)
             sz = np.array(case["sz"], dtype=np.int64)
             calls, blocks, layout = [], [], []
             real_ss, real_inv = np.searchsorted, np.linalg.inv
@@ -327,7 +399,7 @@ class C37(Prop):
                 return real_inv(B, *args, **kw)
 
             def py():
-                A = mk(case["M"], csc, e)
+                A = mk(M, csc, e)
                 before = (A.indptr.copy(), A.indices.copy(), A.data.copy())
                 with patched(np, "searchsorted", ss), patched(np.linalg, "inv", inv):
                     R = mo.invert_diagonal_blocks(A, sz.copy(), method="python")
@@ -338,7 +410,7 @@ class C37(Prop):
                 return np.asarray(R.toarray(), dtype=float).tolist()
 
             def nb():
-                A = mk(case["M"], csc, e)
+                A = mk(M, csc, e)
                 R = mo.invert_diagonal_blocks(A, sz.copy(), method="numba")
                 return np.asarray(R.toarray(), dtype=float).tolist()
 
@@ -347,7 +419,7 @@ class C37(Prop):
             bounds = np.cumsum([0] + szf).tolist()
             nnz = [r for (v, r) in calls if v == bounds]
             res = {"py": rpy, "nb": guarded(nb),
-                   "nnz": nnz[0] if nnz else None}
+                   "nnz": nnz[0] if nnz else None, "M": M}
             if "ok" in rpy:
                 # the block as the line-wise model sees it: transposed for csc
                 res["blocks"] = [((B.T if csc else B) / 2.0 ** e).tolist() for B in blocks]
@@ -358,14 +430,8 @@ class C37(Prop):
         e = case.get("e", 0)
         D = np.array(case["D"], dtype=float) * 2.0 ** e
         n = D.shape[0]
-        A = sps.csr_matrix(D)
-        if case["stored_zeros"]:
-            coo = A.tocoo()
-            rows = list(coo.row) + [z[0] for z in case["stored_zeros"]]
-            cols = list(coo.col) + [z[1] for z in case["stored_zeros"]]
-            dat = list(coo.data) + [0.0] * len(case["stored_zeros"])
-            A = sps.csr_matrix(sps.coo_matrix((dat, (rows, cols)), shape=(n, n)))
-            # csr conversion keeps explicit zeros
+        A = build_perm_input(case)
+        assert np.array_equal(A.toarray(), D)
         res = {"stored": int(A.nnz)}
         perm = guarded(lambda: mo.generate_permutation_to_block_diag_matrix(A))
         if "err" in perm:
@@ -393,7 +459,7 @@ class C37(Prop):
     # ---------------------------------------------------------------- oracle
     def oracle(self, case, res):
         if case["kind"] == "bd":
-            D = dense_of(case["M"], case["csc"])
+            D = dense_of(res["M"], case["csc"])
             e = case.get("e", 0)
             for bk in ("py", "nb"):
                 r = res[bk]
@@ -446,7 +512,7 @@ class C37(Prop):
             blocks = ({"ok": res["blocks"]} if "ok" in res["py"] else {"err": res["py"]["err"]})
             cbl = cres(blocks, lambda bs: clist(bs, lambda b: cmatz([ints(r) for r in b])))
             lay = res.get("layout", ([], []))
-            return (f"tie_bd_s {cbool(case['csc'])} {ccsr(case['M'])} {clist(case['sz'], cnat)} "
+            return (f"tie_bd_s {cbool(case['csc'])} {ccsr(res['M'])} {clist(case['sz'], cnat)} "
                     f"{cq(Fraction(2) ** case.get('e', 0))} "
                     f"{clist(res['nnz'], cnat)} {cbl} {cres(res['py'], cmatq)} "
                     f"{cres(res['nb'], cmatq)} {clist(lay[0], cnat)} {clist(lay[1], cnat)}")
@@ -460,9 +526,9 @@ class C37(Prop):
 
     def coq_diag(self, case, res):
         if case["kind"] == "bd":
-            return (f"(idx_nnz {ccsr(case['M'])} {clist(case['sz'], cnat)}, "
-                    f"extract_blocks Python {ccsr(case['M'])} {clist(case['sz'], cnat)}, "
-                    f"extract_blocks Numba {ccsr(case['M'])} {clist(case['sz'], cnat)})")
+            return (f"(idx_nnz {ccsr(res['M'])} {clist(case['sz'], cnat)}, "
+                    f"extract_blocks Python {ccsr(res['M'])} {clist(case['sz'], cnat)}, "
+                    f"extract_blocks Numba {ccsr(res['M'])} {clist(case['sz'], cnat)})")
         n = len(case["D"])
         return f"(generate_permutation {cnat(n)} {cmatz(case['D'])})"
 
@@ -474,7 +540,7 @@ class C37(Prop):
 
     def finding_key(self, case, res, why):
         if case["kind"] == "bd":
-            M = case["M"]
+            M = res["M"]
             if 0 in M["data"] and "raised" in why:
                 return "block inverter: explicitly stored zeros outside the blocks"
             return "block inverter: " + why[:40]
